@@ -36,6 +36,45 @@ CHECKS["C07"] = dict(
     technique="Lean 4 theorems over kernels regenerated from source + translation validation",
 )
 
+CHECKS["C08"] = dict(
+    category="proof",
+    text=("Partial. Lean theorems: (L0) the kernel regenerated from uniform_reservoir_storage.py has Algorithm L's shape (slot for range "
+          "`size`, weight multiplied first, next skip drawn from the updated weight; skipped arrivals change nothing); (L2) with the "
+          "moments of U^(1/k) as only input every accept/reject history has the probability of independent Bernoulli(k/t) "
+          "acceptances; (L1) for that chain, for every k>=1, n>=k and every set A of arrivals P(A in reservoir) = prod (k-i)/(n-i), "
+          "hence k/n per observation and 1/C(n,k) per k-subset; one generated accepting step summed over its slot outcomes is the "
+          "chain's step. Not proved in Lean: the analytic bridge from real-valued uniform draws (two integrals) — trusted."),
+    design_ref="DESIGN.md section 6, C08",
+    note=("Trusted: Lean kernel; standard axioms; py2lean (validated each run); analytic bridge E[(U^(1/k))^m]=k/(k+m), geometric law of "
+          "floor(log U/log(1-w)), independence and uniformity of library draws. The fixed-seed frequency test only searches for a "
+          "failing input."),
+    technique="Lean 4 theorems (generated kernel shape + finite-probability induction) + translation validation",
+)
+CHECKS["C09"] = dict(
+    category="proof",
+    text=("Lean theorems: a full reservoir of the kernel regenerated from geometric_reservoir_storage.py accepts iff the drawn real is "
+          "<= p and then overwrites the slot drawn for range `size`; default p = 1/k; p = 1 always stores; summing one generated step "
+          "over its draw outcomes is the abstract step; for the chain of such steps, for all k>=1, n, t and p in any field, an arrival "
+          "t>k is retained with probability p(1-p/k)^(n-t) and each of the first k with (1-p/k)^(n-k). Tie: translation validation and "
+          "the exact distribution of the real class (all scripts) for k<=3, n<=k+4."),
+    design_ref="DESIGN.md section 6, C09",
+    note=("Trusted: Lean kernel; standard axioms; py2lean (validated each run); P(U<=p)=p for random.random(); randrange uniform; "
+          "independence of draws."),
+    technique="Lean 4 theorems (generated kernel + finite-probability induction) + exhaustive small-case distribution check",
+)
+CHECKS["C20"] = dict(
+    category="proof",
+    text=("Partial. Lean theorems in the standard rounding model over the kernels regenerated with every arithmetic operation wrapped in "
+          "fl (so in the source's operation order): |smoothed_fl - smoothed| <= 4 u max|v| / alpha (0<alpha<=1, 16u<=alpha), "
+          "|mean_fl - mean| <= 6 n u max|v| (n u <= 1/100), all results bounded (mean, smoothed value, sum of squares, variance), and "
+          "each exact sum-of-squares increment is N/(N+1) (v-mean)^2 >= 0. The relative variance bound c n u kappa is NOT proved; it is "
+          "only searched for counterexamples. Tie: generated kernels run in binary64 agree bit for bit with the Python classes."),
+    design_ref="DESIGN.md section 6, C20",
+    note=("Trusted: Lean kernel; standard axioms; py2lean fl-variant (validated bit-for-bit each run); IEEE-754 binary64 satisfies the "
+          "standard model absent overflow/underflow; exact/90-digit references in the oracle."),
+    technique="Lean 4 theorems in the standard rounding model over regenerated kernels + bitwise translation validation",
+)
+
 NOT_YET = {
 }
 
